@@ -161,6 +161,11 @@ def kernel_traces(check, nstorm):
         with open(out2) as fh:
             storm_tr = json.load(fh)
     check.extra['kernel_traces'] = {'repository_test_suite_loops': len(suite), 'random_program_loops': len(storm_tr)}
+    if not suite or not storm_tr:
+        # the recorder wraps Loop.schedule / Loop._run_coroutine / Interrupt.revoke by name: if the kernel is
+        # restructured it records nothing, and the kernel-level part of this check is skipped (not failed)
+        check.notes.append('kernel-level recorder produced no traces (suite: %d, random: %d loops); kernel part skipped'
+                           % (len(suite), len(storm_tr)))
     return [({'source': 'repository test suite under -p ktrace', 'loop': i}, t, 0) for i, t in enumerate(suite)] + \
            [({'source': 'random program under ktrace', 'loop': i}, t, 0) for i, t in enumerate(storm_tr)]
 
